@@ -64,6 +64,13 @@ impl<'h> FindMatchesImpl<'h> {
         self.offset = offset;
     }
 
+    /// The part of the input the char_indices iterator is relative to.
+    /// Lookaheads are evaluated on it, so it must start at the current offset.
+    #[inline]
+    fn haystack(&self) -> &'h str {
+        &self.input[self.offset.min(self.input.len())..]
+    }
+
     /// Returns the next match in the haystack.
     ///
     /// If no match is found, `None` is returned.
@@ -79,7 +86,7 @@ impl<'h> FindMatchesImpl<'h> {
         loop {
             result = self
                 .scanner_impl
-                .find_from(self.input, self.char_indices.clone());
+                .find_from(self.haystack(), self.char_indices.clone());
             if let Some(mut matched) = result {
                 self.advance_beyond_match(matched);
                 matched.add_offset(self.offset);
@@ -111,7 +118,7 @@ impl<'h> FindMatchesImpl<'h> {
         for _ in 0..n {
             let result = self
                 .scanner_impl
-                .peek_from(self.input, char_indices.clone());
+                .peek_from(self.haystack(), char_indices.clone());
             if let Some(mut matched) = result {
                 let token_type = matched.token_type();
                 Self::advance_char_indices_beyond_match(&mut char_indices, matched);
